@@ -10,7 +10,7 @@ use std::collections::HashSet;
 use std::str::FromStr;
 
 pub const NAMES8: [&str; 3] = ["A", "B", "X-y"];
-pub const VALUES8: [&str; 16] = ["", "v", "v w  ", "é", "a:b", "a #b", ":x", "#x", "v\nw", "\nv", "\nv\nw", "v\n.\nw", "v\nw:x", "v  \nw", "v\nw\t", "é\u{3000}\nw  \nx"];
+pub const VALUES8: [&str; 18] = ["", "v", "v w  ", "é", "a:b", "a #b", ":x", "#x", "v\nw", "\nv", "\nv\nw", "v\n.\nw", "v\nw:x", "v  \nw", "v\nw\t", "é\u{3000}\nw  \nx", "v\n:x", "v\n-x"];
 
 #[derive(Clone, Serialize, Deserialize, PartialEq, Debug)]
 pub enum LOp {
@@ -70,7 +70,7 @@ fn check_doc(spec: &[Vec<(usize, usize)>]) -> Vec<Viol> {
     }
     // paragraphs separated by exactly one blank line; no other blank lines
     let blank_lines = printed.split('\n').rev().skip(1).filter(|l| l.is_empty()).count();
-    if blank_lines != spec.len() - 1 {
+    if blank_lines != spec.len().saturating_sub(1) {
         out.push(viol("one-blank-line-between-paragraphs", ctx(&format!("{} blank lines for {} paragraphs", blank_lines, spec.len()))));
     }
     // single paragraph: Paragraph's own Display / FromStr
@@ -158,7 +158,7 @@ impl Prop for C08 {
         "model_checking"
     }
     fn rule(&self, _t: Tier) -> String {
-        "(a) print/parse: the full product of lossy documents over 3 names x 16 canonical values (empty, trailing spaces, Unicode, ':' '#' inside and leading, multi-line, empty first line, '.' line) for one paragraph of 1-3 fields, 2-3 paragraphs of 1 field and (thorough) 2 paragraphs x 2 fields; each is printed, re-read by both readers and checked for one blank line between paragraphs; (b) edits: breadth-first search over get/set/insert/remove histories (3 names x 2 values) from 6 initial paragraphs, the state being the field vector itself (exact cache), against a Vec model; states = distinct field vectors, transitions = operations applied; non-trivial = every document / every distinct edit state".into()
+        "(a) print/parse: the full product of lossy documents over 3 names x 18 canonical values (empty, trailing spaces, Unicode, ':' '#' inside and leading, multi-line, empty first line, '.' line) for one paragraph of 1-3 fields, 2-3 paragraphs of 1 field and (thorough) 2 paragraphs x 2 fields; each is printed, re-read by both readers and checked for one blank line between paragraphs; (b) edits: breadth-first search over get/set/insert/remove histories (3 names x 2 values) from 6 initial paragraphs, the state being the field vector itself (exact cache), against a Vec model; states = distinct field vectors, transitions = operations applied; non-trivial = every document / every distinct edit state".into()
     }
     fn bounds(&self, t: Tier) -> Value {
         json!({"names": NAMES8, "values": VALUES8, "edit_depth": t.pick(4, 6), "edit_initial_paragraphs": EDIT_INITS.len(), "edit_ops": edit_ops().len()})
@@ -176,6 +176,7 @@ impl Prop for C08 {
         let n = 3 * nv;
         match shard {
             0 => {
+                f(&C08Case::Doc(vec![])); // the document without paragraphs
                 for fields in 1..=3 {
                     product(&vec![n; fields], &mut |v| {
                         f(&C08Case::Doc(vec![v.iter().map(|x| pair(*x)).collect()]));
